@@ -421,18 +421,26 @@ type FetchMessageBuffer struct {
 func (buf *FetchMessageBuffer) populateItemData(item FetchItemData) error {
 	switch item := item.(type) {
 	case FetchItemDataBodySection:
-		b, err := io.ReadAll(item.Literal)
-		if err != nil {
-			return err
+		var b []byte
+		if item.Literal != nil {
+			var err error
+			b, err = io.ReadAll(item.Literal)
+			if err != nil {
+				return err
+			}
 		}
 		if buf.BodySection == nil {
 			buf.BodySection = make(map[*imap.FetchItemBodySection][]byte)
 		}
 		buf.BodySection[item.Section] = b
 	case FetchItemDataBinarySection:
-		b, err := io.ReadAll(item.Literal)
-		if err != nil {
-			return err
+		var b []byte
+		if item.Literal != nil {
+			var err error
+			b, err = io.ReadAll(item.Literal)
+			if err != nil {
+				return err
+			}
 		}
 		if buf.BinarySection == nil {
 			buf.BinarySection = make(map[*imap.FetchItemBinarySection][]byte)
